@@ -366,6 +366,12 @@ class Judge:
             if s.solver_name == "PDCD_WS":
                 # up to 1e6 in-place updates whose count is not observable: a relative 1e-7
                 allow = max(allow, 1e-7 * scale)
+            # the in-place model fit passes through intermediate iterates that can be orders of
+            # magnitude larger than the final one (line searches, unpenalised features running
+            # off and coming back): rounding is relative to *their* size.  Observed on the
+            # unchanged tree at thorough depth: up to 9e-10 of the final scale.  A lost or
+            # misapplied update is 1e-3 or more.
+            allow = max(allow, 1e-8 * scale)
             res["buf_err"] = err
             if err > allow:
                 out.append(dict(prop=["C05"], oracle="buffer",
